@@ -19,6 +19,8 @@ import subprocess
 import sys
 import time
 import traceback
+import warnings
+warnings.filterwarnings('ignore')
 
 VERIF = os.path.dirname(os.path.dirname(os.path.abspath(__file__)))
 REPO = os.environ.get('KAPTURE_REPO', '/repo')
